@@ -85,7 +85,7 @@ fn verify_with_history_params(
         // Make sure this proof is for a version 1 more than the previous one.
         let prev_version = proof.update_proofs[count - 1].version;
         let curr_version = proof.update_proofs[count].version;
-        if curr_version + 1 != prev_version {
+        if curr_version.checked_add(1) != Some(prev_version) {
             return Err(VerificationError::HistoryProof(format!(
                 "Update proofs should be ordered consecutively and in decreasing order.
                 Error detected with version {} at index {}, followed by version {} at index {}",
